@@ -658,7 +658,16 @@ func runCaseRaw(c Case, res *lib.Result) string {
 			}
 		}
 	}
-	return fmt.Sprintf("mkCase %s %s", lib.CoqList(al), lib.CoqList(ol))
+	// image copy issues requests from several goroutines: a request that was in flight when a challenge arrived is
+	// logged after it without credentials, so the model (one request at a time) may predict a transmission that did not
+	// happen; for such cases only "every observed transmission is predicted" is required
+	seq := true
+	for _, op := range c.Ops {
+		if strings.HasPrefix(op, "copy") {
+			seq = false
+		}
+	}
+	return fmt.Sprintf("mkCase %s %s %s", lib.CoqList(al), lib.CoqList(ol), lib.CoqBool(seq))
 }
 
 func role(c Case, h string) string {
